@@ -560,8 +560,16 @@ def login_program():
     try:
         from tools.py2v import gen_logging
 
-        m = gen_logging.Module(pathlib.Path(aioftp.__file__).parent / "client.py")
-        return gen_logging.client_login_program(m), None
+        import shutil
+
+        from tools.py2v.normalize import normalized_src
+
+        nsrc = normalized_src(pathlib.Path(aioftp.__file__).parent)  # the same pre-pass `python -m tools.py2v` applies
+        try:
+            m = gen_logging.Module(nsrc / "client.py")
+            return gen_logging.client_login_program(m), None
+        finally:
+            shutil.rmtree(nsrc.parent, ignore_errors=True)
     except Exception as e:
         return STD_PROGRAM, f"{type(e).__name__}: {e}"
 
